@@ -182,7 +182,10 @@ pub fn check(runs: &mut usize, fails: &mut Vec<Failure>) {
             *runs += 1;
             let input = format!("anthem verify --equivalence external a.lp=`{a}` b.lp=`{b}` g.ug=`{ug}` o.po=`{outline}`  [the emitted problems of this task declare {n}/{k}: it occurs in the task]");
             let (rc, err, problems) = match run_verify(&["--equivalence", "external"], &files) { Ok(x) => x, Err(e) => { fails.push(Failure { property: "harness", input, detail: e }); return; } };
-            if rc == 0 || !problems.is_empty() { fails.push(Failure { property: "C13", input, detail: format!("the outline must be rejected, but anthem exits with {rc} and emits {} problems", problems.len()) }); }
+            if rc == 0 || !problems.is_empty() {
+                // (C02 as well: the definition contradicts the completed definition the problems already contain, every problem becomes provable)
+                for prop in ["C13", "C02"] { fails.push(Failure { property: prop, input: input.clone(), detail: format!("the outline must be rejected, but anthem exits with {rc} and emits {} problems", problems.len()) }); }
+            }
             else if rc == 101 || err.contains("panicked at") { fails.push(Failure { property: "C16", input, detail: format!("rejected by a panic: {}", err.lines().take(2).collect::<Vec<_>>().join(" / ")) }); }
         }
     }
